@@ -24,3 +24,5 @@ def run(rep, tier):
     rep.rule('G2-as-sound', 'List flags are sound for the str and the int spelling of every bound')
     total = e1run.run(rep, ['List'], tier, select=lambda f: f['rule'] in ('G2-cp-sound', 'G2-as-sound', 'F0-flags-exclusive'))
     rep.floor('configurations of List', total.get('List', 0), 200)
+    from .. import controls
+    controls.e1_controls(rep)
